@@ -306,7 +306,8 @@ class kLeastAbsErrorsCycles(walkmodel.AbstractWalkModelDiGraph):
                         continuous_var=self.path_weights_vars[(i)],
                         product_var=self.pi_vars[(u, v, i)],
                         lb=0,
-                        ub=self.w_max,
+                        # the bound also fixes how many bits the helper uses for the multiplicity: it has to cover the repetition cap
+                        ub=max(self.w_max, self.edge_upper_bounds[(u, v)]),
                         name=f"u={u}_v={v}_i={i}_10",
                     )
 
